@@ -20,12 +20,22 @@ RULE = ('per stage (blocked, discard, downsample, decimate, rms, derivative, iir
         'random parameters (q 1..5, block sizes 1..50, discard counts 0..N+2, rms block 1..50, filter orders 1..3, baseline 2..N+2), '
         '1-D and 2-channel, plain ndarray and PipelineData; annotated streams start at 0, at positive and at NEGATIVE s0 (pre-stimulus), half of them chosen so that a counter of the stage (output-sample counter, s0 of the held block, discard/block counter) is exactly 0, +-1 or its initial value at a chunk boundary of the chunking, plus dedicated chunkings cut exactly at / next to that point; fs in {1000, 44100, 195312.5}; '
         'event_rate: all compositions of spans of 9 (thorough 11) samples and random spans up to 300 with random events, window 1..40, step 1..40. '
+        'Variant cases (per stage ~90 quick / 1500 thorough; event_rate 120 / 2000): float64/float32/int64/int32/int16 data, read-only chunks, '
+        'ZERO-LENGTH chunks (all stages but iirfilter/decimate, see assumptions), 1/2/3 channels, string / falsy / mixed-type / tuple / default labels, '
+        'scalar labels on 1-D, {} / nested / falsy-valued metadata, int / NumPy scalars for q, block size, discard count, fs, s0, off-grid seconds '
+        'arguments incl. exact .5 ties (rms duration, auto_th baseline), derivative initial state int / float / non-integer / NumPy, every iirfilter '
+        'btype x ftype, every auto_th keyword (n float, fs auto/None/number, mode, auto_th_cb None/callable/positional, current_th_cb), transform with '
+        'lambda / ufunc / partial / callable object / bound method, mc_reference with float / int / float32 / nested-list matrices of size 1-3, '
+        'event_rate with int / float / NumPy block_size and block_step, FRACTIONAL block_step, s0_mode values, int fs, a target that overwrites what it '
+        'received, the Ellipsis reset message of blocked / discard after an unrelated stream; emitted dtype compared with the one-shot dtype. '
         'Non-trivial: at least two chunks and at least one chunk boundary that is not a multiple of the stage period '
         '(or, for stateful filters/derivative/auto_th, any interior boundary). Distinct = distinct case dictionaries.')
 TRUSTED = ['harness/C12.py (stream/chunking generator; recipe evaluation: one one-shot call of lfilter / np.diff / np.mean / std / matmul '
            'on the whole signal and bit-exact lookup of every emitted value in it; canonicalisation of .s0/.fs/.channel/.metadata to integers)',
            'NumPy basic slicing as modelled in coq/Common/PySlice.v; generators resuming where they yielded']
-ASSUMPTIONS = ['chunks have >= 1 sample; all chunks of a stream carry the same fs, channel labels and metadata and are contiguous in s0',
+ASSUMPTIONS = ['theorems: chunks have >= 1 sample (the correspondence also sends zero-length chunks to every stage except iirfilter / decimate, where scipy.signal.lfilter on an empty array returns a garbage final state: finding key filters:zero-length-chunk-corrupts-filter-state, cases enabled by C12_EMPTY_FILTER_CHUNKS=1 or by a known: line); all chunks of a stream carry the same fs, channel labels and metadata and are contiguous in s0',
+               'the caller does not overwrite a chunk after sending it (blocked, downsample, rms, auto_th keep references / views of their input until enough samples arrived; not demanded by the property text); the target MAY overwrite what it receives',
+               'event_rate s0_mode is accepted but ignored by the code (always centre): only contiguity and rate are judged for left / right',
                'parameters: q >= 1, block size >= 1, discard count >= 0, rms block >= 1 and dividing the s0 of the first chunk '
                '(rms divides s0 by the block length in floating point), auto_th baseline >= 2 samples (std of 0 or 1 samples is NaN / 0)',
                'scipy.signal.lfilter is the sample-sequential recurrence whose final state zf, passed as zi, continues it exactly '
@@ -556,10 +566,31 @@ def _impl_events(case):
     return res
 
 
+class StageHung(Exception):
+    pass
+
+
 def impl(case):
-    if case['stage'] == 'event_rate':
-        return _impl_events(case)
-    return _impl_array(case)
+    """runs the real coroutine; a stage that does not return within 30 s (e.g. a window loop that stopped advancing)
+    is reported as an unexpected exception instead of hanging the check"""
+    import signal
+
+    def on_alarm(signum, frame):
+        raise StageHung('the stage did not return within 30 s (non-terminating loop?)')
+    try:
+        old = signal.signal(signal.SIGALRM, on_alarm)
+        signal.setitimer(signal.ITIMER_REAL, 30)
+        armed = True
+    except ValueError:          # not in the main thread: no watchdog
+        armed = False
+    try:
+        if case['stage'] == 'event_rate':
+            return _impl_events(case)
+        return _impl_array(case)
+    finally:
+        if armed:
+            signal.setitimer(signal.ITIMER_REAL, 0)
+            signal.signal(signal.SIGALRM, old)
 
 
 # ------------------------------------------------------------------ model terms
